@@ -230,6 +230,15 @@ def routeJoinOperandWith (rj : Catalog → List Name → Option (Name × List Na
 def routeJoinOperand := routeJoinOperandWith resolveJoin
 def routeJoinOperandOld := routeJoinOperandWith resolveJoinOld
 
+/-- the "DBT workaround" of `PlanJoinTSPredictorQuery.adapt_dbt_query` on the data source SRC of
+`(select … from SRC) JOIN <time-series model>` inside CREATE TABLE / INSERT / UPDATE..FROM: `integration` is
+`parts[0]` of the statement's target table (`None` outside such statements); a source whose first part, AS WRITTEN,
+is not a known database gets that integration in front -/
+def dbtSource (c : Catalog) (integration : Option Name) (parts : List Name) : List Name :=
+  match integration, parts with
+  | some i, p :: _ => if p ∈ c.databases then parts else i :: parts
+  | _, _ => parts
+
 /-- routing of a table on the simple path (`get_integration_select_step`) -/
 def routeSimple (c : Catalog) (parts : List Name) : Routed :=
   match resolveSimple c parts with
